@@ -1156,4 +1156,117 @@ fn get_peers_in_range(peers: &[PeerId], address: &NetworkAddress, range: U256) -
 
 /// Verification hooks: pass-throughs to crate-private helpers for the external /verif harness.
 #[cfg(maidsafe_safe_network_verif)]
-pub mod verif {}
+pub mod verif {
+    use super::*;
+    use crate::{record_store::NodeRecordStore, replication_fetcher::ReplicationFetcher};
+    use tokio::sync::mpsc;
+
+    /// Pass-through to the private `get_peers_in_range`.
+    pub fn get_peers_in_range(
+        peers: &[PeerId],
+        address: &NetworkAddress,
+        range: U256,
+    ) -> Vec<PeerId> {
+        super::get_peers_in_range(peers, address, range)
+    }
+
+    /// Pass-through to `SwarmDriver::get_replicate_candidates`.
+    pub fn get_replicate_candidates(
+        driver: &mut SwarmDriver,
+        target: &NetworkAddress,
+    ) -> Vec<PeerId> {
+        driver.get_replicate_candidates(target)
+    }
+
+    /// What kademlia's `get_closest_local_peers` yields for `target`
+    /// (the list `get_replicate_candidates` starts from).
+    pub fn closest_local_peers(driver: &mut SwarmDriver, target: &NetworkAddress) -> Vec<PeerId> {
+        let kbucket_key = target.as_kbucket_key();
+        driver
+            .swarm
+            .behaviour_mut()
+            .kademlia
+            .get_closest_local_peers(&kbucket_key)
+            .map(|key| key.into_preimage())
+            .collect()
+    }
+
+    /// Insert a peer into the routing table; `true` if kademlia took it.
+    pub fn add_peer_to_routing_table(
+        driver: &mut SwarmDriver,
+        peer: PeerId,
+        addr: Multiaddr,
+    ) -> bool {
+        matches!(
+            driver
+                .swarm
+                .behaviour_mut()
+                .kademlia
+                .add_address(&peer, addr),
+            libp2p::kad::RoutingUpdate::Success
+        )
+    }
+
+    /// Remove a peer from the routing table.
+    pub fn remove_peer_from_routing_table(driver: &mut SwarmDriver, peer: &PeerId) {
+        let _ = driver.swarm.behaviour_mut().kademlia.remove_peer(peer);
+    }
+
+    /// Set the record store's responsible distance range, as `SwarmDriver` does.
+    pub fn set_responsible_distance_range(driver: &mut SwarmDriver, range: U256) {
+        driver
+            .swarm
+            .behaviour_mut()
+            .kademlia
+            .store_mut()
+            .set_distance_range(range);
+    }
+
+    /// The record store's responsible distance range.
+    pub fn get_responsible_distance_range(driver: &mut SwarmDriver) -> Option<U256> {
+        driver
+            .swarm
+            .behaviour_mut()
+            .kademlia
+            .store_mut()
+            .get_farthest_replication_distance()
+    }
+
+    /// A fresh `ReplicationFetcher` for `self_peer` with the given distance range, fed one
+    /// `add_keys` call from `holder` (nothing stored locally); returns what it hands out.
+    pub fn fetcher_add_keys(
+        self_peer: PeerId,
+        range: Option<U256>,
+        holder: PeerId,
+        incoming_keys: Vec<(NetworkAddress, RecordType)>,
+    ) -> Vec<(PeerId, RecordKey)> {
+        let (event_sender, _event_receiver) = mpsc::channel(4);
+        let mut fetcher = ReplicationFetcher::new(self_peer, event_sender);
+        if let Some(range) = range {
+            fetcher.set_replication_distance_range(range);
+        }
+        fetcher.add_keys(holder, incoming_keys, &HashMap::new())
+    }
+
+    /// A fresh `NodeRecordStore` for `self_peer` under `dir` with `keys` marked as stored;
+    /// returns `get_records_within_distance_range(range)`.
+    pub fn store_records_within_distance_range(
+        self_peer: PeerId,
+        dir: std::path::PathBuf,
+        keys: Vec<RecordKey>,
+        range: U256,
+    ) -> usize {
+        let config = crate::record_store::NodeRecordStoreConfig {
+            storage_dir: dir.clone(),
+            historic_quote_dir: dir,
+            ..Default::default()
+        };
+        let (event_sender, _event_receiver) = mpsc::channel(4);
+        let (cmd_sender, _cmd_receiver) = mpsc::channel(4);
+        let mut store = NodeRecordStore::with_config(self_peer, config, event_sender, cmd_sender);
+        for key in keys {
+            store.mark_as_stored(key, RecordType::Chunk);
+        }
+        store.get_records_within_distance_range(range)
+    }
+}
